@@ -1,14 +1,21 @@
 """C10 — literate documents: prose is inert, named code fences are isolated.
 
-A case is a Mechdown document built from generated per-interpreter programs (the unnamed main program and one
-program per fence name) by cutting them into code blocks / fences and interleaving them with prose elements.
-The plugin sends, with the document D, the code-only documents that the Coq model prescribes:
-    M            main code only (all main lines in order, no comments, one block of plain code)
-    for every fence name n that is reached, in order of first appearance:
-      Na         the fences named n only (comments removed)
-      Nb         the lines n's interpreter executes successfully, as plain main code
-The harness (mode `doc`) echoes every source; the Coq judge re-renders all of them from the case with its own
-`render_doc` / `main_only` / `ns_only` / `ns_flat`, refuses the case if a text differs, and compares the tables."""
+A case is a Mechdown document given LINE BY LINE: (lncase <stream> (listed <open finding ids>) <line>...), a line =
+(s|c|k|p|e|b|f "<indentation>" "<text>" [fails [failsT]]) - statement, comment, continuation of a multi-line statement,
+prose, prose whose parser consumes the following blanks (title, heading, table row), blank, fence line.
+The Coq judge (Model/DocScan.v) scans the lines itself - which line opens a fence, which closes it, how the info
+string is split -, derives the elements of the document algebra (Model/Doc.v) from the scan and checks
+  * the block structure of the tree the real parser built (harness mode `doc` with "blocks": every fenced block with
+    kind / name / disabled / hidden / items or body text, every top-level code run) against the scan,
+  * the tables of the document against the code-only documents the model prescribes for the SCANNED elements:
+      M            main code only (all main lines in order, no comments, one block of plain code)
+      for every fence name n that is reached, in order of first appearance:
+        Na         the fences named n only (comments removed)
+        Nb         the lines n's interpreter executes successfully, as plain main code
+The harness echoes every source; the judge re-renders all of them from the lines and refuses the case if a text
+differs.  py_scan / py_elems below mirror the model only to compute these sources and the `fails` flags.
+Documents come from two families: generated programs cut into code blocks / fences and interleaved with prose
+elements (streams plain, codelike, layout) and documents written line by line to stress the scanner (stream scan)."""
 from vlib.core import sx, q
 
 PROP = "C10"
@@ -17,27 +24,39 @@ LEVEL = "proof"
 RULE = ("documents = generated programs (definitions with exactly denotable numbers / strings / booleans / small "
         "matrices, dependent definitions, a mutable variable with assignments, expression lines, comments; failing "
         "lines: undefined variable, cross-namespace reference, redefinition) cut into top-level code blocks, unnamed "
-        "```mech fences and named fences (alpha, beta, gamma; same name several times), interleaved with prose: "
+        "```mech fences and named fences (same name several times), interleaved with prose: "
         "title, numbered section, subsection, paragraph, bullet / numbered list, block quote, thematic break, "
         "markdown table, fenced non-mech code (python / no language) and mech:disabled fences whose bodies would "
         "change program variables if executed.  Streams: plain (prose over a vocabulary without Mech operators, "
         "blank line between all elements: binding), codelike (sentences containing `x := 5`, `{x}`, `|`, `[..]` "
         "...: a parse error is advisory), layout (plain prose; no blank line after code elements, indented code, "
-        "~~~ fences, `mec` tag: a parse error is advisory).  non-trivial = distinct document that evaluated and "
-        "whose tables equal those of all its code-only documents")
+        "~~~ fences, `mec` tag: a parse error is advisory), scan (written line by line: ``` and ~~~ fences, whole "
+        "fences of the other sigil type and `mech:x` openers inside plain fences, the other sigil inside a line, the "
+        "closing sigil inside a line, 4-5 sigil characters on opening / closing lines, unclosed fences at the end, "
+        "indented fences after code / fences / prose, blanks after the sigil / after the tag / after the closing "
+        "sigil, tags mech / mec / mech: / mech:: / mechmech: / mech:hidden / mech:disabled / non-mech look-alikes "
+        "(me, Mech, `mech, xmech:a), names over the letters m e c h and with dash / dot / colon: binding).  "
+        "non-trivial = distinct document whose parsed block structure equals the model's scan and whose tables equal "
+        "those of all its code-only documents, or whose unclosed fence is a parse error")
 ASSUMPTIONS = [
     "the document algebra (which lines reach which interpreter, in which order, and where evaluation stops) is proved "
-    "generically in the statement semantics; the classification of every rendered line as prose or code by the real "
-    "Mechdown parser is tested only - that is exactly what the comparison document vs code-only documents exercises",
+    "generically in the statement semantics; the fence structure (opening / closing lines, info string, names) is "
+    "modelled at line granularity and compared with the parsed tree on every case; whether a line OUTSIDE fences is "
+    "prose or code is the generator's annotation, checked against the tree (top-level code runs) and by the tables",
     "values are not predicted by the model: both sides of every comparison come from the implementation "
     "(document vs the code-only documents the model prescribes), so the check is blind to defects of statement "
     "evaluation that are the same in a document and in plain code (other properties cover those)",
     "tables are compared as (name, mutable, value) rows, `ans` included; alias classes are not compared",
+    "fence namespaces are keyed by hash_str(name) in the interpreter: the model identifies a namespace with its name "
+    "(no collision of the 64-bit hash among the names of one document)",
     "a line consisting of a single identifier is code by the grammar (an expression statement), not a one-word "
     "paragraph; the plain stream has no such lines (observed: `Overview` alone on a line -> UndefinedVariable, "
     "document stops)",
-    "function definitions, state machines, inline `{{..}}` code with side effects, Mika sections, includes and "
-    "nested (floated / prompted) fences are outside the generated documents",
+    "advisory (outside the line model): text after a closing sigil on the same line, option maps `{..}` and non-ASCII "
+    "characters on an opening line, ebnf blocks, a sigil after blanks that follow a paragraph / list / quote / break "
+    "(the parser has not consumed those blanks), non-code lines or no statement inside a mech fence",
+    "function definitions inside named fences, state machines, inline `{{..}}` code with side effects, Mika sections, "
+    "includes and nested (floated / prompted) fences are outside the generated documents",
 ]
 TRIVIAL_TAGS = []
 
@@ -422,44 +441,445 @@ def stmts_only(items):
     return [it for it in items if "cmt" not in it]
 
 
-def build_case(doc, stream, extra_tags=None):
-    live, traces, names = simulate(doc)
-    D = render_doc(doc)
-    main_items = [it for e in doc if e["kind"] == "code" or (e["kind"] == "fence" and e["name"] == "") for it in e["items"]]
-    M = render_items("", stmts_only(main_items))
-    srcs = [D, M]
+# --------------------------------------------------------------------------------------------------
+# lines: the form in which a case reaches the Coq judge.  A line = dict(ind, text, role, it) with role
+#   s statement (first line)  c comment  k continuation of a multi-line statement  p prose  b blank  f fence line
+# The judge scans the lines itself (Model/DocScan.v); py_scan / py_elems mirror that model only to compute which
+# statements fail and which code-only documents the model prescribes - the judge re-derives both and refuses the
+# case if an echoed source differs.
+# --------------------------------------------------------------------------------------------------
+def L(ind, text, role, it=None):
+    return dict(ind=ind, text=text, role=role, it=it)
+
+
+def item_lines(ind, it):
+    if "cmt" in it:
+        return [L(ind, it["cmt"], "c", it)]
+    parts = it["text"].split("\n")
+    return [L(ind, parts[0], "s", it)] + [L("", p, "k") for p in parts[1:]]
+
+
+def text_lines(text, role="p"):
+    out = []
+    for t in text.split("\n")[:-1]:
+        out.append(L("", t, "b" if t.strip(" \t") == "" else role))
+    return out
+
+
+def doc_to_lines(doc):
+    lines = []
+    for e in doc:
+        ly = e["ly"]
+        for _ in range(len(ly["sep"])):
+            lines.append(L("", "", "b"))
+        if e["kind"] in ("prose", "nonmech"):
+            # title(), ul_subtitle(), subtitle() and mechdown_table_row() end with whitespace0: role e
+            lines += text_lines(e["text"], "e" if e.get("pk") in ("title", "section", "subsection", "table") else "p")
+        elif e["kind"] == "code":
+            for it in e["items"]:
+                lines += item_lines(ly["ind"], it)
+        else:
+            lines.append(L(ly["ind"], ly["sig"] + ly["lang"] + fence_tag(e), "f"))
+            for it in e["items"]:
+                lines += item_lines(ly["ind"], it)
+            lines.append(L(ly["ind"], ly["sig"], "f"))
+    return lines
+
+
+def full(l):
+    return l["ind"] + l["text"]
+
+
+def is_blank_text(t):
+    return t.strip(" \t") == ""
+
+
+def starts_sigil(t):
+    for sg in ("```", "~~~"):
+        if t.startswith(sg):
+            return sg, t[3:]
+    return None
+
+
+def trim_rep(s, p):
+    while s.startswith(p):
+        s = s[len(p):]
+    return s
+
+
+def classify_tag(tag):
+    """mirror of DocScan.classify_tag (src/syntax/src/mechdown.rs code_block)"""
+    if tag == "ebnf":
+        return ("ebnf", None)
+    if tag.startswith("mech") or tag.startswith("mec") or tag.startswith("\U0001F916"):
+        rest = trim_rep(trim_rep(trim_rep(trim_rep(tag, "mech"), "mec"), "\U0001F916"), ":")
+        if rest == "":
+            return ("unnamed", None)
+        if rest == "disabled":
+            return ("disabled", None)
+        if rest == "hidden":
+            return ("hidden", None)
+        return ("named", rest)
+    return ("plain", None)          # Equation / Diagram / CodeBlock: all inert
+
+
+def py_scan(lines):
+    """-> (closed?, blocks); a block is ('line', l) or ('fence', dict(raw=, body=[lines], pre=, post=))"""
+    blocks, i, eat = [], 0, True
+    while i < len(lines):
+        t = full(lines[i])
+        u = t.lstrip(" \t") if eat else t
+        op = starts_sigil(u)
+        if op is None:
+            blocks.append(("line", lines[i]))
+            if not is_blank_text(t):
+                eat = lines[i]["role"] in ("s", "c", "k", "e")
+            i += 1
+            continue
+        sg, raw = op
+        body, j, closed = [], i + 1, False
+        while j < len(lines):
+            k = full(lines[j]).find(sg)
+            if k >= 0:
+                closed = True
+                break
+            body.append(lines[j]); j += 1
+        if not closed:
+            return False, blocks
+        tj = full(lines[j])
+        blocks.append(("fence", dict(raw=raw, body=body, pre=tj[:k], post=tj[k + 3:])))
+        i, eat = j + 1, True
+    return True, blocks
+
+
+def fence_tag_of(b):
+    return b["raw"].lstrip(" \t").split("{")[0]
+
+
+def in_trailing_blank_class(blocks):
+    """mirror of DocScan.kf_trailing_blank: a fence whose tag classifies differently without the blanks at its end"""
+    return any(k == "fence" and classify_tag(fence_tag_of(b)) != classify_tag(fence_tag_of(b).rstrip(" \t")) for k, b in blocks)
+
+
+def py_elems(blocks, trim=False):
+    els = []
+    for kind, b in blocks:
+        if kind == "line":
+            if b["role"] in ("s", "c"):
+                els.append(dict(kind="code", name="", items=[b["it"]]))
+            elif b["role"] in ("p", "e", "f"):
+                els.append(dict(kind="prose", text=full(b) + "\n"))
+        else:
+            tag = fence_tag_of(b)
+            k, name = classify_tag(tag.rstrip(" \t") if trim else tag)
+            items = [l["it"] for l in b["body"] if l["role"] in ("s", "c")]
+            if k in ("unnamed", "hidden"):
+                els.append(dict(kind="fence", name="", items=items))
+            elif k == "named":
+                els.append(dict(kind="fence", name=name, items=items))
+            elif k == "disabled":
+                els.append(dict(kind="disabled", name="", items=items))
+            else:
+                els.append(dict(kind="nonmech", text=""))
+    return els
+
+
+_LISTED = None
+
+
+def listed_findings():
+    global _LISTED
+    if _LISTED is None:
+        try:
+            from vlib import core
+            _LISTED = sorted(core.load_known(PROP).keys())
+        except Exception:
+            _LISTED = []
+    return _LISTED
+
+
+def code_only_docs(els):
+    """the code-only documents the model prescribes for the elements els (sets the `fails` flags of the statements)"""
+    for e in els:
+        for it in e.get("items", []):
+            it.pop("fails", None)
+    live, traces, names = simulate(els)
+    main_items = [it for e in els if e["kind"] == "code" or (e["kind"] == "fence" and e["name"] == "") for it in e["items"]]
+    srcs = [render_items("", stmts_only(main_items))]
     ly0 = dict(sep="", ind="", sig="```", lang="mech")
     for n in names:
         fs = [dict(kind="fence", name=n, items=stmts_only(e["items"])) for e in live if e["kind"] == "fence" and e["name"] == n]
         srcs.append("\n".join(render_elem(ly0, f) for f in fs))
         srcs.append("".join(t + "\n" for t in traces.get(n, [])))
-    def item_sx(it):
-        if "cmt" in it:
-            return ["cmt", q(it["cmt"])]
-        return ["stmt", q(it["text"]), it["fails"]]
-    els = []
-    for e in doc:
-        ly = e["ly"]
-        if e["kind"] == "prose":
-            body = ["prose", q(e["text"])]
-        elif e["kind"] == "nonmech":
-            body = ["nonmech", q(e["text"])]
-        elif e["kind"] == "code":
-            body = ["code"] + [item_sx(i) for i in e["items"]]
-        elif e["kind"] == "fence":
-            body = ["fence", q(e["name"])] + [item_sx(i) for i in e["items"]]
+    return srcs, names
+
+
+def build_case_lines(lines, stream, extra_tags=None, doc=None):
+    D = "".join(full(l) + "\n" for l in lines)
+    closed, blocks = py_scan(lines)
+    srcs = [D]
+    names, els = [], []
+    extra = {}
+    if closed:
+        if in_trailing_blank_class(blocks):
+            # inside the class the judge wants the documents of the reading without the blanks first, then those
+            # of the code's reading; a statement carries its `fails` flag under either reading
+            s1, _ = code_only_docs(py_elems(blocks, trim=True))
+            srcs += s1
+            extra["trailing_blank_class"] = 1
+            for l in lines:
+                if l["role"] == "s":
+                    l["it"]["failsT"] = l["it"].get("fails", 0)
+        els = py_elems(blocks)
+        s2, names = code_only_docs(els)
+        srcs += s2
+    lsx = []
+    for l in lines:
+        if l["role"] == "s":
+            if "trailing_blank_class" in extra:
+                lsx.append(["s", q(l["ind"]), q(l["text"]), l["it"].get("fails", 0), l["it"].get("failsT", 0)])
+            else:
+                lsx.append(["s", q(l["ind"]), q(l["text"]), l["it"].get("fails", 0)])
         else:
-            body = ["disabled"] + [item_sx(i) for i in e["items"]]
-        els.append(["el", q(ly["sep"]), q(ly["ind"]), q(ly["sig"]), q(ly["lang"]), body])
-    kinds = sorted({e.get("pk") or (("named-fence" if e["name"] else "fence") if e["kind"] == "fence" else e["kind"]) for e in doc})
-    tags = dict(stream=stream, namespaces=len(names),
-                failing=("main" if any(it.get("fails") for it in main_items) else "") +
-                        ("named" if any(it.get("fails") for e in doc if e["kind"] == "fence" and e["name"] for it in e["items"]) else "") or "none")
-    for k in kinds:
-        tags["has_" + k] = 1
+            lsx.append([l["role"], q(l["ind"]), q(l["text"])])
+    all_items = [it for e in els for it in e.get("items", [])]
+    tags = dict(stream=stream, namespaces=len(names), closed=int(closed),
+                failing=("main" if any(it.get("fails") for e in els if e["kind"] == "code" or (e["kind"] == "fence" and not e["name"]) for it in e["items"]) else "") +
+                        ("named" if any(it.get("fails") for e in els if e["kind"] == "fence" and e["name"] for it in e["items"]) else "") or "none")
+    if doc is not None:
+        kinds = sorted({e.get("pk") or (("named-fence" if e["name"] else "fence") if e["kind"] == "fence" else e["kind"]) for e in doc})
+        for k in kinds:
+            tags["has_" + k] = 1
+    tags.update(extra)
     if extra_tags:
         tags.update(extra_tags)
-    return dict(sx=sx(["docase", stream] + els), impl=dict(srcs=srcs), tags=tags, _doc=doc, _stream=stream)
+    return dict(sx=sx(["lncase", stream, ["listed"] + [q(x) for x in listed_findings()]] + lsx),
+                impl=dict(srcs=srcs, blocks=1), tags=tags, _lines=lines, _stream=stream)
+
+
+def build_case(doc, stream, extra_tags=None):
+    return build_case_lines(doc_to_lines(doc), stream, extra_tags, doc=doc)
+
+
+# --------------------------------------------------------------------------------------------------
+# stream `scan`: documents written line by line to stress the block-level classification
+# --------------------------------------------------------------------------------------------------
+MECH_LETTER_NAMES = ["m", "e", "c", "h", "me", "mec", "mech", "hem", "ech", "mmm", "cem", "eh", "mechmech", "mecmec",
+                     "chem", "emc", "hc", "mm", "cc", "memech", "mecha", "emech", "cm", "hmec"]
+ODD_NAMES = ["x-y_z1", "a:b", "x.y", "Disabled", "HIDDEN", "n1", "disabled2", "hiddenx", "ebnf", "eq", "python"]
+PLAIN_INFOS = ["", "", "python", "python", "rust", " python", "c", "me", "Mech", "MECH", "m", "emech", "hmech", "xmech:a",
+               "`", "``", "`mech", "``mech:x", "`python", "js ", "\tsh", "py\"thon", "a(b)[c]<d>|e\\f", "text", "eq", "math",
+               "mermaid", "diagram", "latex"]
+
+
+def hostile_items(rng, names):
+    return [dict(text=l, defs=[], uses=[]) for l in hostile_lines(rng, names)]
+
+
+def blanks(rng):
+    return rng.choice(["", "", "", " ", "  ", "\t", "   "])
+
+
+def make_scan_doc(rng, size):
+    """-> (lines, tags)"""
+    tags = {}
+    nns = rng.choice([0, 1, 2, 2, 3])
+    pool = MECH_LETTER_NAMES if rng.random() < 0.6 else list(dict.fromkeys(MECH_LETTER_NAMES + FENCE_NAMES + ODD_NAMES))
+    fnames = rng.sample(pool, nns)
+    main_prog = make_program(rng, list(NAMES), rng.randint(2, size))
+    progs = {n: make_program(rng, list(NAMES), rng.randint(1, max(2, size // 2))) for n in fnames}
+    main_names = [v for st in main_prog for v in st["defs"]]
+    all_names = main_names + [v for n in fnames for st in progs[n] for v in st["defs"]]
+    if fnames and rng.random() < 0.3:
+        n = rng.choice(fnames)
+        p = progs[n]
+        own = {v for st in p for v in st["defs"]}
+        cand = [v for v in main_names if v not in own]
+        if cand and rng.random() < 0.5:
+            bad = dict(text="leak := %s" % rng.choice(cand), defs=[], uses=["!"], force=True)
+        else:
+            bad = dict(text="bad := %s" % rng.choice(FAILING_RHS), defs=[], uses=["!"], force=True)
+        p.insert(rng.randint(0, len(p)), bad)
+        tags["failing_line"] = 1
+    pieces = [[("main", ch) for ch in chunks(rng, main_prog)]] + [[(n, ch) for ch in chunks(rng, progs[n])] for n in fnames]
+    order, idx = [], [0] * len(pieces)
+    while any(i < len(s) for i, s in zip(idx, pieces)):
+        k = rng.choice([j for j in range(len(pieces)) if idx[j] < len(pieces[j])])
+        order.append(pieces[k][idx[k]]); idx[k] += 1
+
+    lines = []
+    state = dict(eat=True, last="start")        # last: start | code | prose | fence
+
+    def sep(kind):
+        # code next to prose needs a blank line (a prose line directly after code is offered to the code parser)
+        need = 1 if (state["last"] == "code" and kind == "prose") or (state["last"] == "prose" and kind == "code") or \
+                    (state["last"] == "prose" and kind == "prose") else 0
+        n = max(need, rng.choice([0, 1, 1, 1, 2]))
+        if state["last"] == "start":
+            n = rng.choice([0, 0, 1])
+        for _ in range(n):
+            lines.append(L("", rng.choice(["", "", "", " ", "\t "]), "b"))
+
+    def indent():
+        if state["eat"] and rng.random() < 0.3:
+            tags["indented_fence"] = 1
+            return rng.choice([" ", "  ", "    ", "\t", "   "])
+        if not state["eat"] and rng.random() < 0.04:
+            tags["indented_after_prose"] = 1
+            return "  "
+        return ""
+
+    def put_fence(sig, info, items, role_body="s", trail_open="", close_pre=None, close_post="", ind=None, extra_body=()):
+        sep("fence")
+        ind = indent() if ind is None else ind
+        lines.append(L(ind, sig + info + trail_open, "f"))
+        bind = rng.choice([ind, ind, "", "  "]) if role_body == "s" else ""
+        for it in items:
+            if role_body == "s":
+                lines.extend(item_lines(bind, it))
+            else:
+                lines.append(L("", it, "p" if it.strip(" \t") else "b"))
+            if rng.random() < 0.08:
+                lines.append(L("", "", "b"))
+        for t in extra_body:
+            lines.append(L("", t, "p"))
+        pre = rng.choice([ind, ind, "", " "]) if close_pre is None else close_pre
+        lines.append(L(pre, sig + close_post, "f"))
+        state["eat"], state["last"] = True, "fence"
+
+    def mech_fence(name, items):
+        sig = rng.choice(["```", "```", "~~~"])
+        lang = rng.choice(["mech", "mech", "mech", "mec"])
+        c = rng.random()
+        if name == "main":
+            info = lang if c < 0.8 else (lang + ":hidden" if c < 0.9 else lang + ":")
+            if "hidden" in info:
+                tags["hidden_fence"] = 1
+        else:
+            info = lang + ":" + name if c < 0.85 else (lang + "::" + name if c < 0.93 else lang + lang + ":" + name)
+        if rng.random() < 0.15:
+            info = " " + info                       # blanks between sigil and tag are skipped
+        trail = ""
+        if rng.random() < 0.015:
+            trail = rng.choice([" ", "  ", "\t"])   # finding class fence-info-trailing-blank
+            tags["trailing_blank_info"] = 1
+        if sig == "~~~":
+            tags["tilde_mech_fence"] = 1
+        put_fence(sig, info, items, trail_open=trail, close_post=blanks(rng))
+
+    def noise():
+        c = rng.random()
+        if c < 0.3:
+            sep("prose")
+            for _ in range(rng.randint(1, 2)):
+                lines.append(L("", prose(rng, "paragraph", "plain", all_names, 0).split("\n")[0], "p"))
+            state["eat"], state["last"] = False, "prose"
+        elif c < 0.5:
+            # plain fence that shows how a fence is written: a whole fence of the OTHER sigil type inside
+            sig = rng.choice(["```", "~~~"])
+            other = "~~~" if sig == "```" else "```"
+            inner_info = rng.choice(["mech", "mech:x", "mech:" + rng.choice(MECH_LETTER_NAMES), "", "mech:disabled", "python"])
+            body = [rng.choice(["", " ", "  "]) + other + inner_info] + hostile_lines(rng, all_names) + [other + blanks(rng)]
+            if rng.random() < 0.3:
+                body = hostile_lines(rng, all_names) + body + hostile_lines(rng, all_names)
+            tags["nested_other_sigil"] = 1
+            put_fence(sig, rng.choice(["", "", "python", "text", "md"]), body, role_body="p", close_post=blanks(rng))
+        elif c < 0.68:
+            sig = rng.choice(["```", "~~~"])
+            info = rng.choice(PLAIN_INFOS)
+            if sig == "~~~":
+                info = info.replace("`", "~")
+            if info[:1] in ("`", "~"):
+                tags["long_sigil_opener"] = 1
+            body = hostile_lines(rng, all_names)
+            if rng.random() < 0.25:
+                body.insert(rng.randint(0, len(body)), "see %s here" % ("~~~" if sig == "```" else "```"))   # other sigil inside a line
+                tags["other_sigil_midline"] = 1
+            put_fence(sig, info, body, role_body="p", close_post=blanks(rng))
+        elif c < 0.8:
+            sig = rng.choice(["```", "~~~"])
+            lang = rng.choice(["mech", "mec"])
+            tags["disabled_fence"] = 1
+            put_fence(sig, lang + ":disabled", hostile_items(rng, all_names), close_post=blanks(rng))
+        elif c < 0.9:
+            # the body ends at the first occurrence of the own sigil, also inside a line
+            sig = rng.choice(["```", "~~~"])
+            body = hostile_lines(rng, all_names)
+            sep("fence")
+            ind = indent()
+            lines.append(L(ind, sig + rng.choice(["", "python"]), "f"))
+            for t in body:
+                lines.append(L("", t, "p"))
+            lines.append(L("", "the block ends here " + sig + blanks(rng), "f"))
+            tags["closing_sigil_midline"] = 1
+            state["eat"], state["last"] = True, "fence"
+        elif c < 0.925:
+            # closing line longer than three characters: the rest of the line is text after the closing sigil
+            sig = rng.choice(["```", "~~~"])
+            tags["long_sigil_closer"] = 1
+            put_fence(sig, sig[0] * rng.randint(0, 2) + rng.choice(["", "python"]), hostile_lines(rng, all_names), role_body="p",
+                      close_post=sig[0] * rng.randint(1, 2))
+        else:
+            sep("code")
+            lines.extend(item_lines("", dict(cmt="-- " + sentence(rng, 2, 6))))
+            state["eat"], state["last"] = True, "code"
+
+    for _ in range(rng.choice([0, 0, 1])):
+        noise()
+    for name, items in order:
+        if name == "main" and rng.random() < 0.55:
+            sep("code")
+            ind = rng.choice(["", "", "", "  "])
+            for it in items:
+                lines.extend(item_lines(ind, it))
+            state["eat"], state["last"] = True, "code"
+        else:
+            mech_fence(name, items)
+        for _ in range(rng.choice([0, 1, 1, 2])):
+            noise()
+    if rng.random() < 0.12:
+        # a fence that is never closed (at most by the other sigil type): the document is a parse error
+        sig = rng.choice(["```", "~~~"])
+        other = "~~~" if sig == "```" else "```"
+        sep("fence")
+        lines.append(L("", sig + rng.choice(["", "python", "mech", "mech:a", "mech:disabled"]), "f"))
+        for t in hostile_lines(rng, all_names):
+            lines.append(L("", t, "p"))
+        if rng.random() < 0.5:
+            lines.append(L("", other, "p"))
+        tags["unclosed_fence"] = 1
+    return lines, tags
+
+
+def fixed_scan_docs():
+    def st(text):
+        v = text.split(" ")[0]
+        return dict(text=text, defs=[v] if ":=" in text else [], uses=[])
+    def S(text, ind=""):
+        return L(ind, text, "s", st(text))
+    F, P, B = (lambda t, ind="": L(ind, t, "f")), (lambda t: L("", t, "p")), (lambda: L("", "", "b"))
+    docs = [
+        # docs/mechdown/code-block.mec: a fence of the other type inside a fence is body text
+        [S("x := 1"), B(), F("~~~"), P("```mech:x"), P("x := 2"), P("```"), F("~~~"), B(), S("y := x + 1")],
+        [S("x := 1"), B(), F("```"), P("~~~mech"), P("x := 2"), P("~~~"), F("```"), B(), S("y := x + 1")],
+        # names over the letters of the language tag
+        [F("```mech:me"), S("a := 1"), F("```"), F("```mech:e"), S("a := 2"), F("```"), F("```mech:mech"), S("a := 3"), F("```"),
+         F("```mec:c"), S("a := 4"), F("```"), F("```mech:me"), S("b := a + 1"), F("```")],
+        # language tags that are not mech
+        [S("x := 1"), F("```me"), P("x := 2"), F("```"), F("```Mech"), P("x := 3"), F("```"), F("````mech"), P("x := 4"), F("```")],
+        # hidden runs in the main program; disabled does not run
+        [S("x := 1"), F("```mech:hidden"), S("y := x + 1"), F("```"), F("```mech:disabled"), S("y := 99"), F("```"), S("z := y + 1")],
+        # unclosed
+        [S("x := 1"), B(), F("```mech"), P("y := 2")],
+        [S("x := 1"), B(), F("```python"), P("y := 2"), P("~~~")],
+        # indentation is consumed after code and after a fence, with and without blank lines
+        [S("x := 1"), F("~~~mech:a", "  "), S("y := 2", "  "), F("~~~", "  "), F("```mech:a", "    "), S("z := y"), F("```"), S("w := x")],
+        # a tag is everything after the blanks that follow the sigil, its own trailing blanks included
+        [F("```mech "), S("y := 2"), F("```"), S("x := 1")],
+        [F("```mech:disabled "), S("y := 2"), F("```"), S("x := 1")],
+        [F("```mech:a"), S("y := 2"), F("```"), F("```mech:a "), S("z := 3"), F("```")],
+    ]
+    return [build_case_lines(d, "scan", dict(origin="fixed-scan")) for d in docs]
 
 
 def fixed_docs():
@@ -509,6 +929,12 @@ def fixed_docs():
 def generate(tier, rng):
     for c in fixed_docs():
         yield c
+    for c in fixed_scan_docs():
+        yield c
+    for i in range(600 if tier == "quick" else 6000):
+        size = rng.choice([3, 5, 7]) if tier == "quick" else rng.choice([3, 5, 8, 12])
+        lines, tags = make_scan_doc(rng, size)
+        yield build_case_lines(lines, "scan", tags)
     n = 900 if tier == "quick" else 8000
     for i in range(n):
         r = i % 10
@@ -518,29 +944,47 @@ def generate(tier, rng):
         yield build_case(doc, stream)
 
 
+def fence_spans(lines):
+    """(first, last) line index of every closed fence"""
+    spans, i, eat = [], 0, True
+    while i < len(lines):
+        t = full(lines[i])
+        op = starts_sigil(t.lstrip(" \t") if eat else t)
+        if op is None:
+            if not is_blank_text(t):
+                eat = lines[i]["role"] in ("s", "c", "k", "e")
+            i += 1
+            continue
+        j = i + 1
+        while j < len(lines) and op[0] not in full(lines[j]):
+            j += 1
+        if j >= len(lines):
+            break
+        spans.append((i, j))
+        i, eat = j + 1, True
+    return spans
+
+
 def shrink(case):
-    doc = case.get("_doc")
-    if not doc:
+    lines = case.get("_lines")
+    if not lines:
         return
     stream = case["_stream"]
     import copy
-    # drop one element; drop one item of an element
-    for i in range(len(doc)):
-        d = copy.deepcopy(doc[:i] + doc[i + 1:])
-        if d:
-            d[0]["ly"]["sep"] = ""
-            try:
-                yield build_case(d, stream, dict(origin="shrunk"))
-            except Exception:
-                pass
-    for i, e in enumerate(doc):
-        items = e.get("items")
-        if items and len(items) > 1:
-            for j in range(len(items)):
-                d = copy.deepcopy(doc)
-                del d[i]["items"][j]
-                if any("cmt" not in it for it in d[i]["items"]) or d[i]["kind"] != "fence":
-                    try:
-                        yield build_case(d, stream, dict(origin="shrunk"))
-                    except Exception:
-                        pass
+    cands = []
+    for a, b in fence_spans(lines):
+        cands.append(lines[:a] + lines[b + 1:])
+    for i in range(len(lines)):
+        if lines[i]["role"] == "k":
+            continue
+        j = i + 1
+        while j < len(lines) and lines[j]["role"] == "k":
+            j += 1
+        cands.append(lines[:i] + lines[j:])
+    for c in cands:
+        if not c:
+            continue
+        try:
+            yield build_case_lines(copy.deepcopy(c), stream, dict(origin="shrunk"))
+        except Exception:
+            pass
